@@ -129,6 +129,8 @@ def gen_case(idx: int, seed: int, tier: str) -> Any:
                         sec["max_threads"] = rng.choice([3, 7, 11])
                     if rng.random() < 0.3 and not tier_b:
                         sec["opts"] = rand_kwargs(rng)
+                    if rng.random() < 0.15 and not tier_b:
+                        sec["backend_options"] = rand_kwargs(rng)
                     svcs[n] = sec
             if svcs:
                 doc["services"] = svcs
@@ -140,6 +142,8 @@ def gen_case(idx: int, seed: int, tier: str) -> Any:
             doc["backend"] = rng.choice(["asyncio", "trio"])
         if rng.random() < 0.4 and not tier_b:
             doc["opts"] = rand_kwargs(rng)
+        if rng.random() < 0.25 and not tier_b:
+            doc["backend_options"] = rand_kwargs(rng)  # (in-process tier only: a real run would hand them to the event loop)
         if rng.random() < 0.3:
             doc["logging"] = None
         files.append(doc)
